@@ -59,7 +59,7 @@ def main():
     demo = os.path.join(out, "demo.py")
     head = sh("git rev-parse --short HEAD", cwd=REPO)[1].strip()
     rc, st = sh("git status --porcelain", cwd=REPO)
-    if st.strip():
+    if st.strip() and not a.scratch:
         print("refusing: /repo has uncommitted changes:\n" + st)
         sys.exit(3)
 
